@@ -754,6 +754,9 @@ def check_C11(ctx):
     # the number of rewriting steps is at most the budget, whatever the length of the input: a divergent macro that leaves one
     # countable mark (an assignment to `cnt`) per rewrite, behind 0, 5 or 40 other statements
     counting = ['DEFINE foo AS foo ; cnt := 1 END DEFINE\n' + 'y := 0 ; ' * k_ + 'foo' for k_ in (0, 5, 40)]
+    # ... and at every boundary priority (the constants of the sources +-1, among them the priority of the built-in operators):
+    # no priority is exempt from the budget
+    counting += ['DEFINE PRIO %d foo AS foo ; cnt := 1 END DEFINE\nfoo' % pr_ for pr_ in front.boundary_prios()]
     for text, b, f, raw in apply_trace(ctx, counting, budgets + [20]):
         ctx.cov['evaluations'] += 1
         if f is None:
